@@ -171,7 +171,7 @@ def idset_dense_rules(fb, R):
         _idset_access(fb, R, rec, fns, T, data_f)
         _idset_size(fb, R, rec, fns, T, data_f, size_f)
         _idset_copy(fb, R, rec, fns, T, data_f, size_f)
-        its = [f for f in fb.functions if f.cls == ISI and f.has_cfg and f.cls_targs[:1] == rec.targs[:1]]
+        its = [f for f in fb.functions if f.cls == ISI and f.has_cfg and [str(x).rstrip('UL') for x in f.cls_targs[:2]] == [str(x).rstrip('UL') for x in rec.targs[:2]]]
         _idset_iter(fb, R, rec, its, T)
 
 
@@ -506,7 +506,7 @@ def _idset_iter(fb, R, rec, its, T):
     if not nexts:
         R.broken('%s: iterator next() not instantiated' % rec.full)
         return
-    irec = next((r for r in fb.records_named(ISI) if r.targs[:1] == rec.targs[:1] and r.fields), None)
+    irec = next((r for r in fb.records_named(ISI) if [str(x).rstrip('UL') for x in r.targs[:2]] == [str(x).rstrip('UL') for x in rec.targs[:2]] and r.fields), None)
     for fn in nexts:
         # the position member: the one that is incremented
         incs = [n for n in fn.all_nodes() if n.get('k') == 'unop' and n.get('op') == '++' and fn.is_this_member(n['sub'])]
@@ -1092,8 +1092,18 @@ def relmap_rules(fb, R):
             ok = root is not None and a0 == root and a1 == ('param', 0) and U.loop_leaks(fn, lps[0]['cb']) is False
             typed = any(any(fn.nodes[x].get('q', '').endswith('item_type::relation') for x in fn.subtree(c)) and s for (c, s, b, o) in U.guards(fn, adds[0]['id']))
             ok = ok and typed
+            # the ids are handed over as unsigned values: no implicit signed -> unsigned conversion (a negative ref would become ~2^64)
+            for a_ in adds[0]['args']:
+                x_ = a_
+                while x_ is not None and fn.nodes[x_].get('k') in ('wrap', 'icast'):
+                    m_ = fn.nodes[x_]
+                    if m_.get('k') == 'icast' and m_.get('ck') == 'IntegralCast':
+                        src, dst = int_type(fn.nodes[m_['sub']].get('t')), int_type(m_.get('t'))
+                        if src is not None and dst is not None and src[0] and not dst[0]:
+                            ok = False
+                    x_ = m_.get('sub')
         R.check(ok, r4, fn.q + '#records-member-then-parent', fn.site,
-                'add_members must call add(member id, parent id) for every member of type relation')
+                'add_members must call add(member id, parent id) with the unsigned (positive_*) ids for every member of type relation')
 
 
 # ------------------------------------------------------------------------------------------------ (3) item stash
@@ -1443,6 +1453,9 @@ def run(ctx):
     configs = ['ndebug14'] if ctx.tier == 'quick' else ['ndebug14', 'debug14', 'ndebug17', 'debug17']
     for cfg in configs:
         index_rules(ctx.facts(['index'], cfg), R)
+        fx = ctx.facts(['c15_extra'], cfg)      # non-default chunk sizes: a hard-coded default width differs from the parameter here
+        special_member_rules(fx, R)
+        idset_dense_rules(fx, R)
         fc = ctx.facts(['core'], cfg)
         itemstash_rules(fc, R)
         special_member_rules(fc, R, core=True)
